@@ -51,6 +51,15 @@ CLAIMED = {
     'C17': ('5-C17', 'Concurrent register/unregister calls against a stub forwarder with every reply kind; every clock reading is a '
             'fresh solver variable (non-decreasing, advancing with virtual time); command Interests are decoded from the face output '
             'with the reference reader; success iff status 200 decided for all 64-bit status codes. Bounded.'),
+    'C14': ('5-C14', 'Certificate hierarchies built by the real code on the ideal signature model; one deviation per run at a link '
+            'chosen by the engine (signature byte symbolic in position and value); verdict compared with the chain predicate; two '
+            'default-constructed validator instances in every order. The symbolic axis is mostly a finite fault vector (stated). Bounded.'),
+    'C16': ('5-C16', 'Certificates produced by the real functions with symbolic signature length, key bytes/lengths crossing the 253 '
+            'boundary, key-name bytes and clock; read by the reference reader, verified by the real verify_* code on ideal '
+            'primitives and re-parsed. Date formatting is C code: concrete instants at boundaries (stated). Bounded.'),
+    'C20': ('5-C20', 'Presence of every environment variable, existence of every candidate file / store location and presence of each '
+            'file key are solver Booleans; result compared with the precedence decision table; transport URIs over all supported '
+            'and unsupported schemes. Strings are concrete: the solver explores the presence/existence vector (stated). Bounded.'),
 }
 NOT_YET = 'check not built yet in this revision of /verif (planned in DESIGN.md section 5)'
 NA = {
